@@ -367,11 +367,15 @@ def rt_c06(rnd, tier):
         if st.name not in ("CJJ14.PiPtr", "CJJ14.Pi2Lev"):
             continue
         c = st.cfg
-        big = c["param_B"] * c.get("param_b_prime", 1) + 1 if st.name == "CJJ14.Pi2Lev" else 0
-        profs = [[c["param_B"] * 4, c["param_B"] * 5, c["param_B"] * 6]]
-        if st.name == "CJJ14.Pi2Lev" and big < 70:
-            profs.append([big + 3, big + 9])          # only two-level (large) lists
-            profs.append([big + 3, c["param_b"] + 1]) # large + medium
+        B_ = c["param_B"]
+        if st.name == "CJJ14.PiPtr":
+            profs = [[B_ * 8] * 3, [B_ * 5, B_ * 6, B_ * 7, B_ * 3]]
+        else:
+            med = min(B_ * c["param_b_prime"], 40)            # largest medium list (capped)
+            big = B_ * c["param_b_prime"] + 1
+            profs = [[med] * 6]
+            if big < 70:
+                profs += [[big + 3] * 3, [big + 3, big + 5, med, med]]
         for prof in profs:
             if not st.fits(prof):
                 continue
@@ -392,7 +396,11 @@ def rt_c06(rnd, tier):
                 reads.append(per)
             cases += 1
             nblocks = sum(len(x) for x in reads[0].values())
-            if nblocks >= 12 and reads[0] == reads[1]:
+            ways = math.factorial(nblocks)
+            for x in reads[0].values():
+                ways //= math.factorial(len(x))
+            # number of ways to hand the slots out to the keywords: a chance coincidence has probability 1/ways
+            if nblocks >= 12 and ways >= 10 ** 8 and reads[0] == reads[1]:
                 _viol(viol, "%s: %d array blocks, but a second EDBSetup made Search read exactly the same slots of A for every keyword "
                             "(list lengths %s)" % (st.name, nblocks, prof), scheme=st.name, profile=prof)
     return {"cases": cases, "bound": "6 ordered-table schemes x 2 configurations x 7 databases x 3 keyword orders; PiPtr/Pi2Lev slot sets of "
